@@ -38,8 +38,18 @@ def main():
             'add_only': True,
         },
         'engines': [
-            {'name': 'E2-enum', 'path': 'wnmc/runner.py', 'serves_properties': sorted(CHECKS),
+            {'name': 'E2-enum', 'path': 'wnmc/runner.py',
+             'serves_properties': sorted(p for p, c in CHECKS.items() if c.get('engine', 'E2-enum') == 'E2-enum'),
              'kind_free_text': 'bounded-exhaustive input enumeration over the real implementation, parallel map + reference-model oracle'},
+            {'name': 'E1-history', 'path': 'wnmc/e1.py',
+             'serves_properties': sorted(p for p, c in CHECKS.items() if c.get('engine') == 'E1-history'),
+             'kind_free_text': 'explicit-state BFS over operation histories on the real SQLite file (snapshot/restore), exact / quotient / coarse state keys, reference model in lock-step'},
+            {'name': 'E3-faults', 'path': 'wnmc/e3.py',
+             'serves_properties': sorted(p for p, c in CHECKS.items() if c.get('engine') == 'E3-faults'),
+             'kind_free_text': 'fault-point enumeration: progress-callback exceptions, failing/denied SQL statements, VM-step interruption, document corruption'},
+            {'name': 'E4-choice', 'path': 'wnmc/e4.py',
+             'serves_properties': sorted(p for p, c in CHECKS.items() if c.get('engine') == 'E4-choice'),
+             'kind_free_text': 'deviation-bounded stateless DFS over set-iteration-order choices (import-hook AST transform) + cross-process PYTHONHASHSEED runs'},
         ],
         'checks': [],
         'notes': 'All checks run the real wn code from /repo (editable install) under PYTHONHASHSEED=0; scratch databases live under /dev/shm and are removed on exit. known_findings.txt lists recorded genuine defects.',
